@@ -865,7 +865,154 @@ def _inl(rule):
 
 
 INLINED_VIEW = False
-RULES_PLAIN = [rule_mutation, rule_stability, rule_predicate, rule_twins, rule_direction]
+
+
+class _PairS(BaseState):
+    def __init__(self, env=None):
+        self.env = dict(env or {})
+
+    def key(self):
+        return tuple(sorted(self.env.items()))
+
+    def copy(self):
+        n = _PairS(self.env)
+        n.trace = self.trace
+        return n
+
+
+class _PairDomain(Domain):
+    """One round of the decorating loop for an element that is / is not a
+    (key, value) pair.  Values: ITEM (the element), ITEM[0], ITEM[1],
+    NONE, ? (anything else)."""
+
+    def __init__(self, item, pair):
+        self.item = item
+        self.pair = pair
+        self.decorated = []      # (node, key value)
+
+    def ev(self, e, st):
+        if isinstance(e, ast.Name):
+            if e.id == self.item:
+                return {'ITEM'}
+            return set(st.env.get(e.id, ('?',)))
+        if isinstance(e, ast.Constant) and e.value is None:
+            return {'NONE'}
+        if isinstance(e, ast.Subscript) and isinstance(
+                e.slice, ast.Constant) and e.slice.value in (0, 1):
+            base = self.ev(e.value, st)
+            if base == {'ITEM'}:
+                return {f'ITEM[{e.slice.value}]'}
+            return {'?'}
+        if isinstance(e, ast.IfExp):
+            t = self.truth(e.test)
+            if t is True:
+                return self.ev(e.body, st)
+            if t is False:
+                return self.ev(e.orelse, st)
+            return self.ev(e.body, st) | self.ev(e.orelse, st)
+        return {'?'}
+
+    def truth(self, e):
+        if isinstance(e, ast.UnaryOp) and isinstance(e.op, ast.Not):
+            v = self.truth(e.operand)
+            return None if v is None else not v
+        if isinstance(e, ast.BoolOp):
+            vals = [self.truth(v) for v in e.values]
+            if isinstance(e.op, ast.And):
+                if any(v is False for v in vals):
+                    return False
+                return True if all(v is True for v in vals) else None
+            if any(v is True for v in vals):
+                return True
+            return False if all(v is False for v in vals) else None
+        t = norm(e)
+        if t in (f'isinstance({self.item}, tuple)',
+                 f'type({self.item}) is tuple',
+                 f'type({self.item}) is TupleType',
+                 f'len({self.item}) == 2'):
+            return self.pair
+        return None
+
+    def branch(self, test, st):
+        v = self.truth(test)
+        if v is None:
+            return [(True, st), (False, st)]
+        return [(v, st)]
+
+    def raises(self, node, st):
+        return []
+
+    def effects(self, stmt, st):
+        for c in ast.walk(stmt):
+            if isinstance(c, ast.Call) and isinstance(
+                    c.func, ast.Attribute) and c.func.attr == 'append' and \
+                    c.args and isinstance(c.args[0], ast.Tuple) and \
+                    len(c.args[0].elts) == 2 and \
+                    norm(c.args[0].elts[1]) == self.item:
+                for v in self.ev(c.args[0].elts[0], st):
+                    self.decorated.append((c, v))
+        if isinstance(stmt, ast.Assign):
+            vals = self.ev(stmt.value, st)
+            st = st.copy()
+            for t in stmt.targets:
+                if isinstance(t, ast.Name):
+                    st.env[t.id] = tuple(sorted(vals))
+                else:
+                    for x in ast.walk(t):
+                        if isinstance(x, ast.Name) and isinstance(
+                                x.ctx, ast.Store):
+                            st.env[x.id] = ('?',)
+        return st
+
+    def for_target(self, node, st):
+        ns = st.copy()
+        for x in ast.walk(node.target):
+            if isinstance(x, ast.Name):
+                ns.env[x.id] = ('?',)
+        return ns
+
+
+def rule_pair_key(model):
+    r = RuleResult('C13.R6', 'an element that is a (key, value) pair is '
+                   'decorated with its key only (never with the whole '
+                   'pair): pairs with equal keys keep their order and '
+                   'their values are never compared')
+    fi = model.func('DT_In', 'InClass.sort_sequence')
+    loops = []
+    for n in own_nodes(fi.node):
+        if isinstance(n, ast.For) and isinstance(n.target, ast.Name):
+            item = n.target.id
+            if any(isinstance(c, ast.Call) and isinstance(
+                    c.func, ast.Attribute) and c.func.attr == 'append'
+                    and c.args and isinstance(c.args[0], ast.Tuple) and
+                    len(c.args[0].elts) == 2 and
+                    norm(c.args[0].elts[1]) == item for c in ast.walk(n)):
+                loops.append(n)
+    if len(loops) != 1:
+        raise AnalysisError('sort_sequence: decorating loop not found')
+    lp = loops[0]
+    item = lp.target.id
+    for pair in (True, False):
+        dom = _PairDomain(item, pair)
+        Interp(dom).block(lp.body, _PairS())
+        got = sorted({v for _, v in dom.decorated})
+        r.instance(fi.where, f'element is a pair: {pair}',
+                   'decorated with ' + ', '.join(got))
+        bad = 'ITEM' if pair else 'ITEM[0]'
+        want = 'ITEM[0]' if pair else 'ITEM'
+        node = dom.decorated[0][0] if dom.decorated else lp
+        if bad in got or want not in got:
+            r.finding(fi.where, f'pair={pair}: key in {got}', (
+                'a (key, value) pair can be decorated with the whole pair: '
+                'pairs with equal keys are then ordered by their values '
+                '(stability lost) and unorderable values raise TypeError'
+                if pair else 'an element that is not a pair is decorated '
+                'with its first item'), node=node, ctx=fi)
+    return r
+
+
+RULES_PLAIN = [rule_mutation, rule_stability, rule_predicate, rule_twins,
+               rule_direction, rule_pair_key]
 RULES = [_inl(r_) for r_ in RULES_PLAIN] if INLINED_VIEW else RULES_PLAIN
 EXPLANATION = (
     'Flow-sensitive may-alias analysis of caller data against every '
